@@ -225,7 +225,8 @@ def _unary(fn, x):
     if fn == 'ATANH':
         return ('in', [math.atanh(x)]) if abs(x) < 1 else ('out',)
     if fn == 'ACOTH':
-        return ('in', [math.atanh(1.0 / x)]) if abs(x) > 1 else ('out',)
+        # 0.5 * ln((x+1)/(x-1)) = 0.5 * log1p(2/(x-1)): |x| - 1 is exact next to 1, and 2/(|x|-1) is small for large |x|
+        return ('in', [math.copysign(0.5 * math.log1p(2.0 / (abs(x) - 1.0)), x)]) if abs(x) > 1 else ('out',)
     raise KeyError(fn)
 
 
@@ -286,8 +287,16 @@ def _atan2(x, y):
     return ('in', [a, a + 2 * PI, a - 2 * PI])
 
 
+def not_a_number(out):
+    return out[0] == 'v' and isinstance(out[1], dict) and '$f' in out[1]
+
+
 def judge(env, out, exp, what, narrow=None):
     kind = exp[0]
+    if not_a_number(out):
+        # whatever is or is not demanded of the value: an infinity or a NaN is neither the defined real value nor an error
+        return fail('%s: got %s - an infinity / NaN is not a number a sheet can hold (an error value is expected where the '
+                    'result cannot be represented)' % (what, out[1]['$f']), ['e', 'any error'], out, case=narrow)
     if kind == 'skip':
         env.note('not-demanded:' + exp[1])
         return None
@@ -342,12 +351,19 @@ LADDER = [5e-324, 1e-320, 1e-300, 1e-200, 1e-100, 1e-30, 1e-17, 1e-9, 1e-6, 1e-3
           1e300, 1e307, 1e308, 1.7976931348623157e308]
 
 
+# functions whose reference is one correctly rounded library call on the exact argument: held to 1e-14 relative (45 units in the last place) in c16.extremes
+TIGHT = ('SQRT', 'EXP', 'LN', 'LOG', 'LOG10', 'SINH', 'COSH', 'TANH', 'ASINH', 'ACOSH', 'ATANH', 'ACOTH', 'ATAN', 'ASIN', 'ACOS',
+         'RADIANS', 'DEGREES', 'ABS')
+
+
 class Extremes(Sub):
     name = 'c16.extremes'
     rule = ('every one-argument function x +-{smallest subnormal, 1e-320 .. 1e-9, 1e9 .. 1e308, largest double} as a variable: '
             'where the defined real value is representable as a double it is returned to within rounding (an intermediate '
             'overflow or a cancellation inside the formula used is no excuse), outside the domain an error; where the value '
-            'is not representable nothing is demanded; non-trivial = value or error demanded')
+            'is not representable an error (never an infinity or a NaN); the exponential, logarithm, root, hyperbolic and inverse '
+            'functions are held to 1e-14 relative (also at 700, 709, 37.5 ... and at 1 + 2^-k), the others to 1e-9; '
+            'non-trivial = value or error demanded')
     min_cases = 500
     min_nontrivial = 300
     min_classes = 10
@@ -363,6 +379,10 @@ class Extremes(Sub):
                     yield [fn, sgn * x]
             for x in (0.0, -0.0):
                 yield [fn, x]
+            # large and moderately large arguments, where a formula put together from other functions multiplies its rounding
+            for x in (700.0, 709.0, 37.5, 300.25, 20.125) + tuple(1 + 2.0 ** -k for k in range(20, 52, 3)):
+                for sgn in (1, -1):
+                    yield [fn, sgn * x]
 
     def check(self, env, case):
         fn, x = case
@@ -379,7 +399,8 @@ class Extremes(Sub):
             # tiny results: the absolute tolerance of the general policy (1e-12) would accept 1e-10 for 1.00000008e-10 and
             # 0 for 1e-307; here the value is held to 1e-9 RELATIVE
             v = number_of(env, out)
-            if v is not None and not any(r == v or (r != 0 and abs(v - r) <= 1e-9 * abs(r)) for r in exp[1]):
+            tol = 1e-14 if fn in TIGHT and all(abs(r) > 1e-300 for r in exp[1]) else 1e-9
+            if v is not None and not any(r == v or (r != 0 and abs(v - r) <= tol * abs(r)) for r in exp[1]):
                 return fail('%s with xa=%r: expected %r, got %r (relative error %.3g)' % (
                     f, x, exp[1][0], v, abs(v - exp[1][0]) / abs(exp[1][0]) if exp[1][0] else float('inf')), ['v', enc(exp[1][0])], out)
         return f1
@@ -784,6 +805,10 @@ class Pv(Sub):
                         for fv in p['futs']:
                             for t in (None, 0, 1):
                                 yield [form, r, n, pay, fv, t]
+        # intermediate products beyond the double range: a number (finite) or an error, never an infinity
+        for r, n, pay, fv in ((0.1, 7400, 100, None), (1, 1000, 20000000, None), (0.25, 3176, 0, 1000), (0.5, -1800, 1, None), (0, 10, 1e308, None),
+                              (0, 10, 1.7e308, 1e308)):
+            yield ['v', r, n, pay, fv, None]
         for r in (0, 0.05, -0.5, 1e-9):
             for n in (0, 1, 10, 2.5):
                 for pay in (100, -250.5):
@@ -836,8 +861,18 @@ class Pv(Sub):
         growth = Fraction(1 + Fraction(r)) ** n if isinstance(n, int) else Fraction(math.pow(1 + r, n))
         if not (1 / BIG <= growth <= BIG):
             env.note('not-demanded:(1+r)^n outside 1e-300..1e300')
+            if not_a_number(out):
+                return fail('%s: got %s - an infinity / NaN is not a number (an error value is expected where the result cannot '
+                            'be computed)' % (what, out[1]['$f']), ['e', 'any error'], out)
             return None
         pv = number_of(env, out)
+        if out[0] == 'e' and isinstance(n, int):
+            # the solution itself beyond the largest double: an error is the answer
+            R0, g0 = Fraction(r), (1 + Fraction(r)) ** n
+            sol = -((Fraction(pay) * n if R0 == 0 else Fraction(pay) * (1 + R0 * Fraction(t or 0)) * (g0 - 1) / R0) + Fraction(fv)) / g0
+            if abs(sol) > Fraction(1.7976931348623157e308):
+                env.note('not-demanded:solution beyond the largest double')
+                return None
         if pv is None or isinstance(pv, float) and (math.isnan(pv) or math.isinf(pv)):
             return fail('%s: expected a finite number, got %s' % (what, short(out)), 'a number', out)
         if isinstance(n, int):
